@@ -239,6 +239,16 @@ def build_call(EoN, name, variant):
             kw[p.name] = v
         elif p.default is inspect._empty:
             missing.append(p.name)
+    # optional numeric array arguments of the node-level systems (pair arrays with non-zero entries on
+    # non-edge pairs, as a caller building them from outer products would pass)
+    if variant.get('arrays') and 'XY0' in sig.parameters and 'Y0' in sig.parameters:
+        import numpy as np
+        nodes = list(base['G'].nodes())
+        Y0 = np.array([0.25 + 0.05 * (i % 3) for i in range(len(nodes))]); X0 = 1 - Y0
+        kw.update(nodelist=list(nodes), Y0=Y0, XY0=np.outer(X0, Y0), XX0=np.outer(X0, X0))
+        if 'X0' in sig.parameters: kw['X0'] = X0
+        kw.pop('rho', None); kw.pop('initial_infecteds', None); kw.pop('initial_recovereds', None)
+        if 'rho' in sig.parameters: kw['rho'] = None
     if not missing:
         return f, kw
     # capture from a wrapper
@@ -276,6 +286,7 @@ def variants(tier):
             vs.append(dict(ic=ic, full=full, labels='int', cont='list', weights=False))
     vs.append(dict(ic='sets', full=True, labels='str', cont='set', weights=True))
     vs.append(dict(ic='sets', full=False, labels='int', cont='array', weights=True))
+    vs.append(dict(ic='rho', full=False, labels='str', cont='list', weights=False, arrays=True))
     if tier != 'quick':
         vs.append(dict(ic='sets', full=True, labels='int', cont='tuple', weights=True))
         vs.append(dict(ic='rho', full=True, labels='str', cont='list', weights=True))
